@@ -1,7 +1,10 @@
 #!/bin/sh
+# runs the thorough command of the given properties (default: all claimed) exactly as registered in MANIFEST.json
 cd /verif
-for p in "$@"; do
+props="$@"
+[ -z "$props" ] && props=$(python3 -c "import json;print(' '.join(c['property_id'] for c in json.load(open('MANIFEST.json'))['checks']))")
+for p in $props; do
   s=$(date +%s)
-  out=$(timeout 3000 /verif/bin/vf check -property $p -tier thorough -no-evidence -crosscheck=false 2>&1 | tail -2 | tr '\n' ' ')
-  echo "$p $(( $(date +%s) - s ))s $out" | cut -c1-400
+  out=$(./check.sh $p thorough 2>&1); rc=$?
+  echo "$p exit=$rc $(( $(date +%s) - s ))s $(echo "$out" | grep -v KNOWN-FINDING | tail -2 | tr '\n' ' ')" | cut -c1-400
 done
